@@ -3,8 +3,12 @@ package harness
 // C15: a multi-query request is all-or-error with exact counts.
 
 import (
+	"encoding/json"
+	"strings"
+
 	"errors"
 	"fmt"
+	"github.com/DataDog/datadog-traceroute/result"
 	"math"
 	"sort"
 	"testing"
@@ -40,6 +44,14 @@ func genC15(rt *rapid.T) *c15Case {
 	// the caller's context may end while the request is still pacing its e2e probes
 	if p.E2e >= 2 && oneOf(rt, "cancel", false, false, true) {
 		c.Rq.CancelAtUs = int64(rapid.IntRange(1, 1000*p.TimeoutMs*p.MaxTTL).Draw(rt, "cancel_at_us"))
+	}
+	// a third through the HTTP handler (first TTL and send delay are fixed there: 1 and 50 ms)
+	if oneOf(rt, "http", false, false, true) {
+		c.Rq.HTTP = true
+		p.MinTTL, p.DelayMs = 1, 50
+		if c.Rq.CancelAtUs > 0 {
+			c.Rq.CancelAtUs = 0
+		}
 	}
 	c.Rq.DNSDefault = DNSScript{Names: []string{"h.example."}, DelayMs: oneOf(rt, "dns_delay", 0, 30)}
 	// per-flow worlds with different shapes and durations (completion orders)
@@ -95,7 +107,23 @@ func checkC15(t *testing.T, c *c15Case, rec *Recorder) []Diff {
 	p := rq.P
 	var ds []Diff
 	add := func(sig, f string, a ...any) { ds = append(ds, Diff{"C15", sig, fmt.Sprintf(f, a...)}) }
-	labels := []string{"protocol:" + p.Protocol, fmt.Sprintf("queries:%d", p.Queries)}
+	labels := []string{"protocol:" + p.Protocol, fmt.Sprintf("queries:%d", p.Queries), fmt.Sprintf("http:%v", rq.HTTP)}
+	if rq.HTTP && o.Err == nil && o.Panic == "" && o.Deadlock == "" {
+		var res result.Results
+		if err := json.Unmarshal(o.Body, &res); err != nil {
+			add("http-body", "status 200 but the body is not a result document: %v", err)
+			rec.Case(scenarioKey(c), false, nil, labels...)
+			return ds
+		}
+		o.Res = &res
+	}
+	// over HTTP the error chain is flattened into text
+	exposes := func(err error, s *InjectedErr) bool {
+		if rq.HTTP {
+			return strings.Contains(err.Error(), s.Error())
+		}
+		return errors.Is(err, s)
+	}
 	if o.Panic != "" || o.Deadlock != "" || o.Wire == nil {
 		rec.Case(scenarioKey(c), false, nil, append(labels, "other:crash")...)
 		return []Diff{{"C09", "crash", o.Panic + o.Deadlock}}
@@ -176,7 +204,7 @@ func checkC15(t *testing.T, c *c15Case, rec *Recorder) []Diff {
 			add("partial-success", "%d injected failures fired but the request returned a result (err=%v)", fired, o.Err)
 		} else {
 			for _, s := range o.Wire.Fired {
-				if !errors.Is(o.Err, s) {
+				if !exposes(o.Err, s) {
 					add("failure-hidden", "%v fired but is not reachable through the returned error: %v", s, o.Err)
 				}
 			}
@@ -188,7 +216,7 @@ func checkC15(t *testing.T, c *c15Case, rec *Recorder) []Diff {
 				if n != fired && !(cancelled && n > fired) {
 					add("failure-count", "joined error has %d members, %d runs/probes failed", n, fired)
 				}
-			} else if fired > 1 {
+			} else if fired > 1 && !rq.HTTP {
 				add("failure-count", "%d runs/probes failed but the error is not a join: %v", fired, o.Err)
 			}
 		}
@@ -199,6 +227,6 @@ func checkC15(t *testing.T, c *c15Case, rec *Recorder) []Diff {
 }
 
 func TestC15(t *testing.T) {
-	rec := NewRecorder("C15", "C15", "rapid: RunTraceroute with 0..5 runs and 0..8 e2e probes (udp/icmp/tcp, v4/v6) over per-flow worlds of different shape and duration, an arbitrary subset of runs/probes failing through per-handle injected faults (first send or k-th read, each with its own sentinel), public-IP fetcher ok/error/slow, reverse DNS on/off; oracle: no failure => success with exactly the requested number of runs and samples (sample multiset == scripted destination delays, 0 = unanswered), public IP iff the fetcher succeeded; >=1 failure => (nil, err), every fired sentinel reachable with errors.Is and the join has exactly one member per failed run; non-trivial = >=2 concurrent runs with different worlds and a non-empty proper subset failing")
+	rec := NewRecorder("C15", "C15", "rapid: RunTraceroute (a third of the cases through the HTTP handler, explicit zero counts included) with 0..5 runs and 0..8 e2e probes (udp/icmp/tcp, v4/v6) over per-flow worlds of different shape and duration, an arbitrary subset of runs/probes failing through per-handle injected faults (first send or k-th read, each with its own sentinel), public-IP fetcher ok/error/slow, reverse DNS on/off; oracle: no failure => success with exactly the requested number of runs and samples (sample multiset == scripted destination delays, 0 = unanswered), public IP iff the fetcher succeeded; >=1 failure => (nil, err), every fired sentinel reachable with errors.Is and the join has exactly one member per failed run; non-trivial = >=2 concurrent runs with different worlds and a non-empty proper subset failing")
 	RunProp(t, rec, genC15, checkC15)
 }
